@@ -407,4 +407,73 @@ theorem init_done (progs : List (List Op)) : DoneInv (init progs) := by
   | none => simp [hp] at hj
   | some p => simp [hp] at hj; subst hj; exact start_done _
 
+/-! ## Every recorded pop belongs to an existing thread; the thread list never changes length -/
+
+theorem trans_popped (g g' : Glob) (i : Nat) (th th' : Thread) (hs : trans g i th = some (g', th')) :
+    ∀ q ∈ g'.popped, q ∈ g.popped ∨ q.1 = i := by
+  obtain ⟨pc, todo⟩ := th
+  cases pc <;> simp only [trans] at hs
+  case done => cases hs
+  case crashed => cases hs
+  case poCasHead h k v =>
+    split at hs <;> cases hs
+    · intro q hq
+      rcases List.mem_append.mp hq with h | h
+      · exact Or.inl h
+      · right; simp at h; rw [h]
+    · intro q hq; exact Or.inl hq
+  case poRecheck h t nx e =>
+    split at hs
+    · split at hs
+      · cases nx <;> cases hs <;> intro q hq <;> exact Or.inl hq
+      · cases nx with
+        | none => cases hs; intro q hq; exact Or.inl hq
+        | some k => simp only at hs; split at hs <;> cases hs <;> intro q hq <;> exact Or.inl hq
+    · cases hs; intro q hq; exact Or.inl hq
+  all_goals
+    (try split at hs)
+    all_goals (try split at hs)
+    all_goals cases hs <;> intro q hq <;> exact Or.inl hq
+
+def TidInv (s : St) : Prop := ∀ q ∈ s.g.popped, q.1 < s.ths.length
+
+theorem step_tid (s s' : St) (i : Nat) (h : TidInv s) (hs : step s i = some s') :
+    TidInv s' ∧ s'.ths.length = s.ths.length := by
+  unfold step at hs
+  cases hth : s.ths[i]? with
+  | none => simp [hth] at hs
+  | some th =>
+    simp only [hth] at hs
+    cases htr : trans s.g i th with
+    | none => simp [htr] at hs
+    | some r =>
+      obtain ⟨g', th'⟩ := r
+      simp only [htr, Option.some.injEq] at hs
+      subst hs
+      have hi : i < s.ths.length := by
+        rcases Nat.lt_or_ge i s.ths.length with h | h
+        · exact h
+        · rw [List.getElem?_eq_none h] at hth; cases hth
+      refine ⟨fun q hq => ?_, by simp⟩
+      simp only [List.length_set]
+      rcases trans_popped _ _ _ _ _ htr q hq with h' | h'
+      · exact h q h'
+      · rw [h']; exact hi
+
+theorem run_tid (s : St) (sched : List Nat) (h : TidInv s) :
+    TidInv (run s sched) ∧ (run s sched).ths.length = s.ths.length := by
+  induction sched generalizing s with
+  | nil => exact ⟨h, rfl⟩
+  | cons i rest ih =>
+    show TidInv (run ((step s i).getD s) rest) ∧ (run ((step s i).getD s) rest).ths.length = s.ths.length
+    cases hs : step s i with
+    | none => exact ih s h
+    | some s1 =>
+      obtain ⟨h1, h2⟩ := step_tid s s1 i h hs
+      obtain ⟨h3, h4⟩ := ih s1 h1
+      exact ⟨h3, by rw [Option.getD_some, h4, h2]⟩
+
+theorem init_tid (progs : List (List Op)) : TidInv (init progs) := by
+  intro q hq; simp [init] at hq
+
 end MV.Model.LFQueue
